@@ -31,7 +31,7 @@ INFO = dict(
               'one ServiceClosedError; no connection ever carries two requests. (b) the same oracle after each of k public-API operations '
               'from the real initial state, including two completions in one scheduler slice.',
   bounds={'quick': '(a) a,b,w <= 2, config symbolic in [0..3]x[1..3]x[0..3]; (b) k <= 6 operations, <=3 concurrent requests, config in [0..3]^3',
-          'thorough': '(a) a,b,w <= 3, config in [0..4]^3; (b) k <= 8 operations'},
+          'thorough': '(a) a,b,w <= 3, config in [0..4]^3; (b) k <= 10 operations'},
   outside=['more cached / lent / waiting requests than the shape bound', 'Open() of a new connection that fails or blocks (connections open at once here; C08/C09)',
            're-opening a closed pool'],
   stubs=['fake connection provider/connections recording CreateSink/Open/Close/requests with a controllable state (3.12)',
@@ -143,9 +143,9 @@ def jobs(tier):
         for k in range(w):
           js.append(dict(name='timeout-a%d-b%d-w%d-k%d' % (a, b, w, k), op='timeout', a=a, b=b, w=w, k=k, hi=hi, cost=1))
   js.append(dict(name='open', op='open', hi=hi, cost=1))
-  kk = 6 if tier == 'quick' else 8
+  kk = 6 if tier == 'quick' else 10
   js.append(dict(name='history-k%d' % kk, op='history', k=kk, hi=3, cost=5000,
-                 shards=16 if tier == 'quick' else 64, shard_depth=8 if tier == 'quick' else 12))
+                 shards=16 if tier == 'quick' else 128, shard_depth=8 if tier == 'quick' else 14))
   return js
 
 
